@@ -95,6 +95,40 @@ class Check:
         for k in e.stats:
             e.stats[k] = 0 if not isinstance(e.stats[k], float) else 0.0
 
+    # ---- second opinion on solver verdicts (DESIGN 2.5): every Nth decided query is re-asked to cvc5 and to z3 4.8.12
+    def cross_check(self, solver, verdict, every=25):
+        """solver: a z3.Solver whose current assertions were just decided as `verdict` ('sat'/'unsat')"""
+        self._cc_n = getattr(self, '_cc_n', 0) + 1
+        if self._cc_n % every:
+            return
+        import subprocess, tempfile
+        st = self.extra.setdefault('cross_checked_queries', {'asked': 0, 'agree': 0, 'inconclusive': 0, 'solvers': ['cvc5 1.0', '/usr/bin/z3 4.8.12']})
+        try:
+            text = '(set-logic ALL)\n' + solver.to_smt2()
+        except Exception:
+            return
+        # z3 5.x prints SMT-LIB 2.7 names that cvc5 1.0 / z3 4.8 do not know yet
+        text = text.replace('ubv_to_int', 'bv2nat').replace('(_ int_to_bv ', '(_ int2bv ')
+        if 'sbv_to_int' in text:
+            return
+        with tempfile.NamedTemporaryFile('w', suffix='.smt2', delete=False, dir=self.native.dir) as f:
+            f.write(text)
+            path = f.name
+        for cmd in (['cvc5', '--lang', 'smt2', '--tlimit=20000', '--strings-exp', path], ['/usr/bin/z3', '-T:20', path]):
+            st['asked'] += 1
+            try:
+                out = subprocess.run(cmd, stdout=subprocess.PIPE, stderr=subprocess.STDOUT, text=True, timeout=40).stdout
+            except Exception:
+                st['inconclusive'] += 1
+                continue
+            first = out.strip().split('\n')[0] if out.strip() else ''
+            if '(error' in out or first not in ('sat', 'unsat'):
+                st['inconclusive'] += 1
+            elif first == verdict:
+                st['agree'] += 1
+            else:
+                raise Broken('solver disagreement: z3 %s says %s, `%s` says %s on %s' % (z3.get_version_string(), verdict, cmd[0], first, path))
+
     # ---- obligations
     def ok(self, n=1):
         self.obligations += n
@@ -174,6 +208,10 @@ class Check:
         self.native.jobs_run += res['native_jobs']
         for k, v in res['extra_lists'].items():
             self.extra_lists.setdefault(k, []).extend(v)
+        if res.get('cc'):
+            st = self.extra.setdefault('cross_checked_queries', {'asked': 0, 'agree': 0, 'inconclusive': 0, 'solvers': res['cc']['solvers']})
+            for k in ('asked', 'agree', 'inconclusive'):
+                st[k] += res['cc'][k]
         for key, text, replay in res['violations']:
             self.obligations -= 1      # violation() counts it again
             self.violation(key, text, replay)
@@ -241,6 +279,7 @@ def _par_worker(arg):
     sub.solver_s = 0.0
     sub.undecided, sub.violations, sub._pending_viol, sub.known_hits, sub.samples = [], [], [], {}, []
     sub.functions, sub.contracts, sub._engines, sub.extra_lists = set(), set(), [], {}
+    sub.extra = {}
     try:
         fn(sub, item)
         out = sub._snapshot()
